@@ -27,6 +27,12 @@ def run(ck):
     ck.mc("MCTokSplit", "C03_struct.cfg", workers=8, xmx="12g", timeout=1800)
     for m in MUTS:
         ck.mc_must_fail("MCTokGrammar", "C15_asfound_%s.cfg" % m, workers=8, timeout=900)
+    # every configured depth D >= 1 (a symbolic integer), any sequence of opens and closes: the level index stays inside the D
+    # allocated levels and nothing deeper than D - 1 is ever entered (inductive invariant, Apalache); the off-by-one test must fail
+    ck.prove("DepthInd", "CInit", "Init", "IndInv", 0)
+    ck.prove("DepthInd", "CInit", "IndInv", "IndInv", 1)
+    ck.prove("DepthInd", "CInit", "IndInv", "Safety", 0)
+    ck.prove("DepthInd", "CInitBad", "IndInv", "IndInv", 1, must_fail=True)
     exe = vlib.build("san", vlib.harness_sources(), "vh")
     n = 8000 if thorough else 410
     tp = os.path.join(ck.dir, "v.ndjson")
